@@ -199,7 +199,23 @@ def step_op(step):
 
 def run_history(ctx, h):
     wit = {"history": h}
+    supplied = []  # (container object given as an argument, snapshot of its elements at that time)
+
+    def note_supplied(objs):
+        for o in objs:
+            if isinstance(o, (list, ht.TagList)):
+                supplied.append((o, list(o)))
+
+    def supplied_untouched(step):
+        for o, snap in supplied:
+            now = list(o)
+            if len(now) != len(snap) or any(a is not b for a, b in zip(now, snap)):
+                ctx.violation("argument-container-altered", "after step %s a container that was passed as an argument has changed" % (step,), dict(wit, step=step))
+                return False
+        return True
+
     start = [gen.build(a) for a in h["start"]]
+    note_supplied(start)
     try:
         model = F.flatten(start)
         expect_fail = False
@@ -224,6 +240,16 @@ def run_history(ctx, h):
         return
     if not _check_accepted(ctx, start, wit) or not _compare(ctx, live, model, wit, "0:ctor"):
         return
+    for c, snap in supplied:
+        if c is live:
+            ctx.violation("children-alias-argument", "the child list IS the TagList object that was passed as an argument", wit)
+            return
+        ctx.count("oracle.argument_aliasing")
+        c.append("ARG-MUTATED-LATER")
+        ok = _compare(ctx, live, model, wit, "0:ctor:after-mutating-an-argument")
+        c.pop()
+        if not ok:
+            return
     ctx.state("op_x_shape", ("ctor:" + h["via"], "args%d" % min(len(start), 3)))
     for si, op in enumerate(h["ops"], 1):
         o = op["op"]
@@ -323,6 +349,20 @@ def run_history(ctx, h):
             return
         if not _compare(ctx, live, model, wit, step):
             return
+        if not supplied_untouched(step):
+            return
+        if o in ("append", "insert", "extend", "iadd", "add", "radd"):
+            note_supplied(built if o == "append" else [built])
+        # the child list must not alias an argument: changing the argument afterwards leaves the children alone
+        if supplied and ctx.rng.random() < 0.15:
+            c, snap = supplied[ctx.rng.randrange(len(supplied))]
+            if c is not live:
+                ctx.count("oracle.argument_aliasing")
+                c.append("ARG-MUTATED-LATER")
+                ok = _compare(ctx, live, model, wit, step + ":after-mutating-an-earlier-argument")
+                c.pop()
+                if not ok:
+                    return
         if new_model is not None:
             if not isinstance(new_live, ht.TagList):
                 ctx.violation("result-not-taglist", "step %s returned %s" % (step, type(new_live).__name__), dict(wit, step=step))
